@@ -13,7 +13,7 @@
 #include <sys/socket.h>
 #include <sys/epoll.h>
 
-struct Cfg { int turns; int envBound; int reactBound; std::string prop; };
+struct Cfg { int turns; int envBound; int reactBound; int errors; std::string prop; };
 static Cfg cfg;
 struct World;
 static World* W;
@@ -25,9 +25,10 @@ struct Cl : public Server::Client::ICallback
   std::string accepted, received, peerSent, clientRead;
   size_t handedToOs;
   bool suspended, removed, backlogNonEmpty, notWritable;
+  bool failed, closedDelivered;     // the environment answered a send with a hard error: onClosed must follow, exactly once
   int onWriteCount, expectedOnWrite, onReadCount;
   unsigned char nextByte, nextPeerByte;
-  Cl() : w(0), id(0), client(0), peer(0), fd(-1), handedToOs(0), suspended(false), removed(false), backlogNonEmpty(false), notWritable(false),
+  Cl() : w(0), id(0), client(0), peer(0), fd(-1), handedToOs(0), suspended(false), removed(false), backlogNonEmpty(false), notWritable(false), failed(false), closedDelivered(false),
          onWriteCount(0), expectedOnWrite(0), onReadCount(0), nextByte(1), nextPeerByte(101) {}
   virtual void onRead();
   virtual void onWrite();
@@ -51,12 +52,17 @@ struct World : public Server::Timer::ICallback
   }
   void doWrite(Cl& x, int n)
   {
-    if(x.removed || x.accepted.size() > 30) return;
+    if(x.removed || x.failed || x.accepted.size() > 30) return;
     std::string d; for(int i = 0; i < n; ++i) d += (char)x.nextByte++;
     vf::Exact e(d.data(), d.size());
     usize postponed = 12345;
     bool ok = x.client->write((const byte*)e.p, d.size(), &postponed);
     vf::hit("writes");
+    if(x.failed)
+    { // the send of this very call failed: the call reports it, nothing is accepted, onClosed follows
+      if(ok) fail("write-true-after-error", vf::fmt("client %d: write() returned true although its send failed", x.id));
+      return;
+    }
     if(!ok) { fail("write-failed", "write() returned false although the environment reported no error"); return; }
     x.accepted += d;
     size_t backlog = x.accepted.size() - x.handedToOs;
@@ -70,8 +76,8 @@ struct World : public Server::Timer::ICallback
     if(x.removed) return; // the server's end is closed
     if(::send((int)x.peer->getFileDescriptor(), b, 2, MSG_NOSIGNAL) == 2) x.peerSent.append((char*)b, 2);
   }
-  void suspend(Cl& x) { if(x.removed) return; x.client->suspend(); x.suspended = true; if(!x.client->isSuspended()) fail("suspend-state", "isSuspended() is false after suspend()"); }
-  void resume(Cl& x) { if(x.removed) return; x.client->resume(); x.suspended = false; if(x.client->isSuspended()) fail("suspend-state", "isSuspended() is true after resume()"); }
+  void suspend(Cl& x) { if(x.removed || x.failed) return; x.client->suspend(); x.suspended = true; if(!x.client->isSuspended()) fail("suspend-state", "isSuspended() is false after suspend()"); }
+  void resume(Cl& x) { if(x.removed || x.failed) return; x.client->resume(); x.suspended = false; if(x.client->isSuspended()) fail("suspend-state", "isSuspended() is true after resume()"); }
   void remove(Cl& x) { if(x.removed) return; server->remove(*x.client); x.removed = true; x.client = 0; vf::hit("removals"); }
 
   // application turn at the 1 ms timer
@@ -81,7 +87,7 @@ struct World : public Server::Timer::ICallback
     if(turn > cfg.turns)
     {
       bool drained = true;
-      for(int i = 0; i < 2; ++i) if(!c[i].removed && c[i].client->getSendBufferSize() != 0) drained = false;
+      for(int i = 0; i < 2; ++i) if(!c[i].removed && !c[i].failed && c[i].client->getSendBufferSize() != 0) drained = false;
       if(turn > cfg.turns + 12 || drained) { stopping = true; server->interrupt(); }
       return;
     }
@@ -142,7 +148,8 @@ struct World : public Server::Timer::ICallback
     for(int i = 0; i < 2 && !failed; ++i)
     {
       Cl& x = c[i];
-      if(x.removed) continue;
+      if(x.failed && !x.closedDelivered) fail("close-not-delivered", vf::fmt("a send of client %d failed but onClosed never followed", i));
+      if(x.removed || x.failed) continue;
       if(x.handedToOs != x.accepted.size()) fail("not-drained", vf::fmt("client %d: %d of %d accepted bytes were never handed to the OS", i, (int)(x.accepted.size() - x.handedToOs), (int)x.accepted.size()));
       else if(x.received != x.accepted) fail("stream", vf::fmt("peer %d received '", i) + vf::hex(x.received) + "', accepted data is '" + vf::hex(x.accepted) + "'");
       if(x.onWriteCount != x.expectedOnWrite) fail("onWrite-count", vf::fmt("client %d: %d onWrite notifications for %d backlog episodes that drained", i, x.onWriteCount, x.expectedOnWrite));
@@ -167,6 +174,7 @@ void Cl::onWrite()
 {
   ++onWriteCount; vf::hit("onWrite");
   if(removed) { w->fail("callback-after-remove", vf::fmt("onWrite delivered to client %d after Server::remove returned", id)); return; }
+  if(failed) w->fail("onWrite-after-error", vf::fmt("client %d: onWrite delivered although its send failed", id));
   if(client->getSendBufferSize() != 0) w->fail("onWrite-early", vf::fmt("client %d: onWrite delivered while %d bytes are still buffered", id, (int)client->getSendBufferSize()));
   if(!backlogNonEmpty) w->fail("onWrite-spurious", vf::fmt("client %d: onWrite delivered although no backlog had built up since the last one", id));
   if(accepted.size() != handedToOs) w->fail("onWrite-early", "onWrite delivered although accepted bytes have not all been handed to the OS");
@@ -176,7 +184,10 @@ void Cl::onWrite()
 void Cl::onClosed()
 {
   if(removed) { w->fail("callback-after-remove", vf::fmt("onClosed delivered to client %d after Server::remove returned", id)); return; }
-  w->fail("closed", vf::fmt("onClosed delivered to client %d although neither side closed or failed", id));
+  if(!failed) { w->fail("closed", vf::fmt("onClosed delivered to client %d although neither side closed or failed", id)); return; }
+  if(closedDelivered) { w->fail("double-close", vf::fmt("onClosed delivered twice to client %d", id)); return; }
+  closedDelivered = true; vf::hit("onClosed");
+  w->remove(*this);      // the conventional reaction
 }
 
 extern "C" ssize_t vf_send(int fd, const void* buf, size_t n, int flags)
@@ -185,10 +196,17 @@ extern "C" ssize_t vf_send(int fd, const void* buf, size_t n, int flags)
   Cl* x = 0;
   if(w) for(int i = 0; i < 2; ++i) if(!w->c[i].removed && w->c[i].fd == fd) x = &w->c[i];
   if(!x) return ::send(fd, buf, n, flags);
-  // outcomes: full (default), would-block, partial 1
-  size_t opts[3]; int k = 0;
+  // outcomes: full (default), would-block, partial 1, hard error (connection reset)
+  size_t opts[4]; int k = 0;
   opts[k++] = n; opts[k++] = 0; if(n > 1) opts[k++] = 1;
+  int errIdx = cfg.errors && !x->failed ? k++ : -1;
   int c = w->envChoice(k);
+  if(c == errIdx)
+  {
+    vf::hit("send_calls"); vf::hit("send_errors"); w->note(vf::fmt("send of client %d: connection reset", x->id));
+    x->failed = true;
+    errno = ECONNRESET; return -1;
+  }
   size_t take = opts[c];
   vf::hit("send_calls"); if(c) { vf::hit("send_deviations"); w->note(vf::fmt("send of client %d: %d of %d bytes", x->id, (int)take, (int)n)); }
   if(take < n) x->notWritable = true;
@@ -268,6 +286,7 @@ int main(int argc, char** argv)
   cfg.envBound = (int)vf::argll(argc, argv, "--eb", 2);
   cfg.reactBound = (int)vf::argll(argc, argv, "--rb", 1);
   cfg.prop = vf::arg(argc, argv, "--prop", "C14");
+  cfg.errors = (int)vf::argll(argc, argv, "--errors", 1);
   Runner r;
   vf::dfs(argc, argv, r, "server-multi");
   return 0;
